@@ -287,6 +287,7 @@ package scheduler
 // are handed to a worker that is gone.
 //@ func (*worker).dequeue
 //@   props C06 C04
+//@   trustcall dequeue -- representation invariant: a waiting worker is listed at w.listIndex in the list of its last invocation (established by idleSynchronizingWorkersList.enqueue)
 //@   ensures no-longer-waiting: w.wakeup == nil
 //@   at call heapRemoveOrFix#1 assert an-invocation-stays-listed-while-it-or-a-descendant-has-a-waiting-worker:
 //@             arg0 == &i.parent.idleSynchronizingWorkersChildren && arg1 == i.idleSynchronizingWorkersChildrenIndex &&
